@@ -25,6 +25,8 @@ mod value;
 #[cfg(not(feature = "force-inprocess"))]
 mod vanish;
 #[cfg(not(feature = "force-inprocess"))]
+mod shm;
+#[cfg(not(feature = "force-inprocess"))]
 mod wire;
 
 fn main() {
@@ -58,6 +60,10 @@ fn main() {
         "vanish" => vanish::run(&args[2..]),
         #[cfg(not(feature = "force-inprocess"))]
         "vanishchild" => vanish::child(&args[2..]),
+        #[cfg(not(feature = "force-inprocess"))]
+        "shm" => shm::run(&args[2..]),
+        #[cfg(not(feature = "force-inprocess"))]
+        "shmchild" => shm::child(&args[2..]),
         s => {
             eprintln!("unknown scenario {}", s);
             std::process::exit(2);
